@@ -75,7 +75,8 @@ def run_with_plan(inputs, plan=None, grace=0.0, workers=1):
         if act == "raise":
             raise RuntimeError("injected fault")
         if act == "timeout":
-            time.sleep(5.0)    # well past the 2 s thread wait: the worker thread keeps running while later jobs are served
+            time.sleep(8.0)    # well past the 2 s thread wait, and long enough that two overlapping hangs still occupy their worker
+                               # threads when the job after them is submitted and for more than its own 2 s wait
         return o_fg(mol_list, mcs_list, *a, **kw)
     patch(FG, "find_missing_parts_pairs", staticmethod(fg))
     o_find = MCSSearch.find
